@@ -143,6 +143,10 @@ def _mk_tree(rng, outcomes, verify):
         if o == "m":
             continue
         content = KINDS[o]
+        if o == "d" and rng.random() < 0.3:
+            content = rng.choice(["local x = 1\r\n", "local x = 1", "local x = 1\n\n", "local x = 1 \n", "do\n    local x = 1\nend\n"])
+            files[name] = content
+            continue
         if o in ("d", "s") and rng.random() < 0.3:
             # make files distinguishable
             content = (content if isinstance(content, str) else content.decode()) + ("local   y%d =  %d\n" % (i, i) if o == "d" else "local y%d = %d\n" % (i, i))
@@ -152,6 +156,10 @@ def _mk_tree(rng, outcomes, verify):
 
 def _expected_formatted(content):
     # the specimens are built from lines whose formatted form is known
+    if content in ("local x = 1\r\n", "local x = 1", "local x = 1\n\n", "local x = 1 \n"):
+        return "local x = 1\n"
+    if content == "do\n    local x = 1\nend\n":
+        return "do\n\tlocal x = 1\nend\n"
     out = []
     for line in content.split("\n"):
         if line.startswith("local   x"):
@@ -272,3 +280,467 @@ def c13(tier, seed, modes=("check",)):
 
 def c14(tier, seed):
     return c13(tier, seed, modes=("write",))
+
+
+# ----------------------------------------------------------------------------- C18
+
+HX = os.path.join(ROOT, ".cache", "target", "release", "hx")
+DIFF_VARIANT = os.environ.get("VERIF_DIFF_VARIANT", "pinned")
+
+
+def apply_json(old_lines, mismatches):
+    """the Lean `Diff.apply`, on text lines (keeps line endings)"""
+    out = []
+    cursor = 0
+    rest = list(old_lines)
+    for m in mismatches:
+        keep = max(0, m["original_start_line"] - cursor)
+        removed = 0 if m["original"] == "" else m["original_end_line"] - m["original_start_line"] + 1
+        out += rest[:keep]
+        out.append(m["expected"])
+        rest = rest[keep:][removed:]
+        cursor = m["original_start_line"] + removed
+    out += rest
+    return "".join(out)
+
+
+def apply_unified(old_text, diff_text):
+    old = old_text.splitlines(True)
+    out = []
+    pos = 0
+    lines = diff_text.splitlines(True)
+    i = 0
+    while i < len(lines) and not lines[i].startswith("@@"):
+        i += 1
+    while i < len(lines):
+        h = lines[i]
+        import re
+        m = re.match(r"@@ -(\d+)(?:,(\d+))? \+(\d+)(?:,(\d+))? @@", h)
+        if not m:
+            i += 1
+            continue
+        ostart = int(m.group(1))
+        ocount = int(m.group(2)) if m.group(2) is not None else 1
+        start0 = ostart - 1 if ocount > 0 else ostart
+        out += old[pos:start0]
+        pos = start0
+        i += 1
+        while i < len(lines) and not lines[i].startswith("@@"):
+            l = lines[i]
+            if l.startswith("\\"):
+                # "\ No newline at end of file": strip the newline of the previous emitted/consumed line
+                prev = lines[i - 1]
+                if prev.startswith("+") or prev.startswith(" "):
+                    if out and out[-1].endswith("\n"):
+                        out[-1] = out[-1][:-1]
+                        if out[-1].endswith("\r"):
+                            pass
+                i += 1
+                continue
+            tag, body = l[0], l[1:]
+            if tag == " ":
+                out.append(old[pos]); pos += 1
+            elif tag == "-":
+                pos += 1
+            elif tag == "+":
+                out.append(body)
+            i += 1
+    out += old[pos:]
+    return "".join(out)
+
+
+_LIB_CACHE = {}
+
+
+def _lib_format(text, cfgstr=""):
+    key = (hashlib.sha1(text.encode()).hexdigest(), cfgstr)
+    if key not in _LIB_CACHE:
+        _LIB_CACHE[key] = _lib_format_raw(text, cfgstr)
+    return _LIB_CACHE[key]
+
+
+def _lib_format_raw(text, cfgstr=""):
+    p = subprocess.run([HX, "fmt", cfgstr], input=text.encode(), stdout=subprocess.PIPE, stderr=subprocess.PIPE)
+    return p.stdout.decode("utf-8", "replace")
+
+
+def c18(tier, seed):
+    Q, V, S = [], [], []
+    rng = random.Random(seed * 104729 + 18)
+    corpus = os.path.join(ROOT, "corpus", "repo-tests")
+    pool = []
+    for d in ("inputs", "inputs-full_moon"):
+        for f in sorted(os.listdir(os.path.join(corpus, d))):
+            pool.append(os.path.join(corpus, d, f))
+    rng.shuffle(pool)
+    pool = pool[: (120 if tier == "thorough" else 40)]
+    specials = {
+        "no-final-newline": "local   x = 1\nlocal y   = 2",
+        "crlf": "local   x = 1\r\nlocal y   = 2\r\n",
+        "crlf-only": "local x = 1\r\nlocal y = 2\r\n",
+        "trailing-space-only": "local x = 1 \nlocal y = 2\n",
+        "tabs-vs-spaces-only": "do\n    local x = 1\nend\n",
+        "final-newline-only": "local x = 1",
+        "extra-final-newlines": "local x = 1\n\n\n",
+        "first-line": "local   a = 1\nlocal b = 2\nlocal c = 3\n",
+        "last-line": "local a = 1\nlocal b = 2\nlocal   c = 3\n",
+        "many-hunks": "".join("local v%d = %d\n" % (i, i) if i % 3 else "local   v%d =   %d\n" % (i, i) for i in range(40)),
+        "multi-line-insert": "local t = { aaaaaaaaaaaaaaaaaaaaaaaaaaaaaa = 1, bbbbbbbbbbbbbbbbbbbbbbbbbbbbbbbbb = 2, ccccccccccccccccccccccccccccccc = 3, ddddddddddddddddddddddd = 4 }\n",
+        "multi-line-delete": "local x = {\n\n\n\n1\n\n\n}\nlocal   y = 2\n",
+        "blank-lines": "\n\n\nlocal x = 1\n\n\n\nlocal y = 2\n\n\n",
+        "already-formatted": "local x = 1\n",
+        "empty": "",
+    }
+    cases = [(os.path.relpath(p, corpus), open(p, encoding="utf-8").read()) for p in pool] + list(specials.items())
+    n = 0
+    multi_inserts = []
+    for name, text in cases:
+        with Tree({"f.lua": text}) as t:
+            expected = _lib_format(text, "syntax=All")
+            if expected.startswith("<parse error>") or expected.startswith("<panic"):
+                continue
+            t.write("expected.lua", expected)
+            detail = {"case": name, "input": text if len(text) < 600 else None}
+            # ---- JSON
+            rc, out, err = run(["--check", "--output-format", "json", "f.lua"], t.root)
+            n += 1
+            js = [json.loads(l) for l in out.decode("utf-8", "replace").split("\n") if l.strip().startswith("{")]
+            mism = js[0]["mismatches"] if js else []
+            if (text == expected) != (not js):
+                V.append(v("C18", "json:diff-iff-differs", dict(detail, differs=text != expected, printed=bool(js))))
+            p = subprocess.run([HX, "diffops", os.path.join(t.root, "f.lua"), os.path.join(t.root, "expected.lua")], stdout=subprocess.PIPE)
+            ops, oids, nids, oljson, nljson = p.stdout.decode().split("\n")[:5]
+            old_lines = json.loads(oljson)
+            new_lines = json.loads(nljson)
+            if js:
+                got = apply_json(old_lines, mism)
+                if got != expected:
+                    V.append(v("C18", "json:does-not-reconstruct", dict(detail, mismatches=mism[:5])))
+            # ring 2: ranges and texts vs the model
+            idmap = {}
+            for l, i in list(zip(old_lines, oids.split(","))) + list(zip(new_lines, nids.split(","))):
+                idmap[l] = i
+            def ids_of(textblock):
+                if textblock == "":
+                    return "-"
+                return ".".join(idmap.get(l, "?") for l in textblock.splitlines(True))
+            impl = ";".join("%d-%d:%d-%d:%s:%s" % (m["original_start_line"], m["original_end_line"], m["expected_start_line"], m["expected_end_line"], ids_of(m["original"]), ids_of(m["expected"])) for m in mism) or "-"
+            import re as _re
+            for mm in _re.finditer(r"I(\d+)", ops):
+                if int(mm.group(1)) > 1:
+                    multi_inserts.append(name)
+            if len(old_lines) + len(new_lines) < 400:
+                Q.append(q("diffjson %s %s %s %s" % (DIFF_VARIANT, ops, oids, nids), impl))
+            # ---- unified
+            rc, out, err = run(["--check", "--output-format", "unified", "f.lua"], t.root)
+            n += 1
+            ud = out.decode("utf-8", "replace")
+            if (text == expected) != (ud == ""):
+                V.append(v("C18", "unified:diff-iff-differs", dict(detail, differs=text != expected)))
+            if ud:
+                got = apply_unified(text, ud)
+                if got != expected:
+                    V.append(v("C18", "unified:does-not-reconstruct", dict(detail, diff=ud[:400])))
+            # ---- standard / summary: printed iff differs
+            for fmt in ("standard", "summary"):
+                rc, out, err = run(["--check", "--output-format", fmt, "f.lua"], t.root)
+                n += 1
+                o = out.decode("utf-8", "replace")
+                printed = ("Diff in f.lua" in o) if fmt == "standard" else ("\nf.lua\n" in "\n" + o)
+                if printed != (text != expected):
+                    V.append(v("C18", fmt + ":diff-iff-differs", dict(detail, differs=text != expected)))
+    S.append({"c18": {"pairs": len(cases), "cli_runs": n, "oracle_evaluations": n, "pairs_with_multi_line_pure_insert": multi_inserts}})
+    return Q, V, S
+
+
+# ----------------------------------------------------------------------------- C15
+
+PROBE = 'do\nlocal x = "s"\nend\n'
+
+
+def _observe_config(text):
+    """which configuration was applied, read off the formatted probe"""
+    lines = text.split("\n")
+    if len(lines) < 2 or not lines[1].lstrip().startswith("local x"):
+        return "?", None
+    ind = lines[1][: len(lines[1]) - len(lines[1].lstrip())]
+    single = "'s'" in lines[1]
+    if ind == "\t":
+        return "default", single
+    if set(ind) == {" "}:
+        return str(len(ind)), single
+    return "?", single
+
+
+def c15(tier, seed):
+    Q, V, S = [], [], []
+    rng = random.Random(seed * 15485863 + 15)
+    n = 400 if tier == "thorough" else 120
+    levels = ["", "a", "a/cwd", "a/cwd/b", "a/cwd/b/c", "a/x"]   # relative to tree root T
+    runs = 0
+    dist = {}
+    for case in range(n):
+        tomls = {}
+        ecs = {}
+        files = {}
+        k = 1
+        user_scenario = rng.random() < 0.15   # user-level config is the one that applies
+        for lv in levels:
+            if rng.random() < 0.35 and not user_scenario:
+                k += 1
+                name = rng.choice(["stylua.toml", ".stylua.toml"])
+                files[os.path.join(lv, name)] = 'indent_type = "Spaces"\nindent_width = %d\n' % k
+                tomls[lv] = k
+                if rng.random() < 0.15:
+                    # both names present: stylua.toml wins
+                    other = ".stylua.toml" if name == "stylua.toml" else "stylua.toml"
+                    k += 1
+                    files[os.path.join(lv, other)] = 'indent_type = "Spaces"\nindent_width = %d\n' % k
+                    if other == "stylua.toml":
+                        tomls[lv] = k
+            if rng.random() < 0.15:
+                j = 11 + len(ecs)
+                files[os.path.join(lv, ".editorconfig")] = "root = true\n[*.lua]\nindent_style = space\nindent_size = %d\n" % j
+                ecs[lv] = j
+        for lv in levels:
+            files[os.path.join(lv, "f.lua")] = PROBE
+        user = None
+        forced = None
+        extra_env = {}
+        args = []
+        if rng.random() < 0.25 or user_scenario:
+            files["userconf/stylua/stylua.toml"] = 'indent_type = "Spaces"\nindent_width = 21\n'
+            user = 21
+        if rng.random() < 0.15:
+            files["forced/my.toml"] = 'indent_type = "Spaces"\nindent_width = 25\n'
+            forced = 25
+        spd = rng.random() < 0.35 or user_scenario
+        noec = rng.random() < 0.3
+        override = rng.random() < (0.6 if user_scenario else 0.3)
+        kind = rng.choice(["rel", "rel", "dot", "abs", "dotdot", "abs-outside", "dir", "stdin-path", "stdin"])
+        target_lv = rng.choice(["a/cwd", "a/cwd/b", "a/cwd/b/c"])
+        with Tree(files) as t:
+            T = t.root
+            cwd = os.path.join(T, "a/cwd")
+            if user:
+                extra_env["XDG_CONFIG_HOME"] = os.path.join(T, "userconf")
+            if spd:
+                args.append("--search-parent-directories")
+            if noec:
+                args.append("--no-editorconfig")
+            if forced:
+                args += ["--config-path", os.path.join(T, "forced/my.toml")]
+            if override:
+                args += ["--quote-style", "ForceSingle"]
+            rel_in_cwd = os.path.relpath(os.path.join(T, target_lv, "f.lua"), cwd)
+            stdin = None
+            out_file = None
+            if kind == "rel":
+                args.append(rel_in_cwd); lexdir = os.path.dirname(os.path.join(cwd, rel_in_cwd)); out_file = os.path.join(T, target_lv, "f.lua")
+            elif kind == "dot":
+                p = "./" + rel_in_cwd
+                args.append(p); lexdir = os.path.dirname(cwd + "/" + p); out_file = os.path.join(T, target_lv, "f.lua")
+            elif kind == "abs":
+                p = os.path.join(T, target_lv, "f.lua")
+                args.append(p); lexdir = os.path.dirname(p); out_file = p
+            elif kind == "dotdot":
+                args.append("../x/f.lua"); lexdir = cwd + "/../x"; out_file = os.path.join(T, "a/x/f.lua")
+            elif kind == "abs-outside":
+                p = os.path.join(T, "a/x/f.lua")
+                args.append(p); lexdir = os.path.dirname(p); out_file = p
+            elif kind == "dir":
+                if target_lv == "a/cwd":
+                    target_lv = "a/cwd/b"
+                d = os.path.relpath(os.path.join(T, target_lv), cwd)
+                # only the file directly in that directory is inspected
+                args.append(d); lexdir = os.path.join(cwd, d); out_file = os.path.join(T, target_lv, "f.lua")
+            elif kind == "stdin-path":
+                args += ["--stdin-filepath", rel_in_cwd, "-"]; stdin = PROBE.encode(); lexdir = os.path.dirname(os.path.join(cwd, rel_in_cwd))
+            else:
+                args.append("-"); stdin = PROBE.encode(); lexdir = cwd
+            rc, out, err = run(args, cwd, stdin=stdin, env=extra_env)
+            runs += 1
+            dist[kind] = dist.get(kind, 0) + 1
+            text = out.decode() if stdin is not None else open(out_file).read()
+            obs, single = _observe_config(text)
+            strip = lambda p: "/" + os.path.relpath(p, T) if os.path.relpath(p, T) != "." else "/"
+            def lex(p):
+                # keep `..` components: strip the tree root textually
+                assert p.startswith(T)
+                r = p[len(T):]
+                return r if r else "/"
+            req = "config cwd=%s;spd=%d;forced=%s;user=%s;noec=%d;tomls=%s;ecs=%s;dir=%s" % (
+                lex(cwd), int(spd), forced or "-", user or "-", int(noec),
+                ",".join("%s:%d" % ("/" + lv if lv else "/", i) for lv, i in sorted(tomls.items())) or "-",
+                ",".join("%s:%d" % ("/" + lv if lv else "/", i) for lv, i in sorted(ecs.items())) or "-",
+                lex(lexdir))
+            Q.append(q(req, {"default": "default"}.get(obs, None) or ("forced:%s" % obs if forced and obs == str(forced) else "user:%s" % obs if user and obs == str(user) else "ec:%s" % obs if obs.isdigit() and int(obs) in ecs.values() else "toml:%s" % obs)))
+            detail = {"argv": args, "cwd": "a/cwd", "tree": {k_: v_ for k_, v_ in files.items() if not k_.endswith("f.lua")}, "observed": obs, "exit": rc, "stderr": err.decode("utf-8", "replace")[:300]}
+            if rc != 0 or obs == "?":
+                V.append(v("C15", "run-failed", detail))
+                continue
+            # ---- ring 3 (documented rule, independent of the model), for targets inside cwd
+            if override and single is not True:
+                V.append(v("C15", "cli-override-not-applied", detail))
+            if not override and single is not False:
+                V.append(v("C15", "quote-changed-without-override", detail))
+            if kind in ("rel", "dot", "abs", "dir", "stdin-path", "stdin"):
+                tdir = "a/cwd" if kind == "stdin" else target_lv
+                want = None
+                if forced:
+                    want = str(forced)
+                else:
+                    chain = []
+                    d = tdir
+                    while True:
+                        chain.append(d)
+                        if d == "a/cwd" and not spd:
+                            break
+                        if d == "":
+                            break
+                        d = os.path.dirname(d)
+                    for d in chain:
+                        if d in tomls:
+                            want = str(tomls[d]); break
+                    if want is None and spd and user:
+                        want = str(user)
+                    if want is None and not noec:
+                        d = tdir
+                        while True:
+                            if d in ecs:
+                                want = str(ecs[d]); break
+                            if d == "":
+                                break
+                            d = os.path.dirname(d)
+                    if want is None:
+                        want = "default"
+                if obs != want:
+                    V.append(v("C15", "wrong-configuration:" + kind, dict(detail, expected=want)))
+            elif kind == "dotdot":
+                # the two spellings of the same outside file must be treated alike
+                open(out_file, "w").write(PROBE)
+                args2 = [a if a != "../x/f.lua" else os.path.join(T, "a/x/f.lua") for a in args]
+                rc2, out2, err2 = run(args2, cwd, env=extra_env)
+                runs += 1
+                obs2, _ = _observe_config(open(out_file).read())
+                if obs2 != obs:
+                    V.append(v("C15", "outside-target:configuration-depends-on-path-spelling", dict(detail, relative_spelling=obs, absolute_spelling=obs2)))
+            # ---- one invocation over the whole working directory: every file gets its own configuration
+            if kind == "rel" and not forced:
+                for lv in ("a/cwd", "a/cwd/b", "a/cwd/b/c"):
+                    open(os.path.join(T, lv, "f.lua"), "w").write(PROBE)
+                base = [a for a in args if a != rel_in_cwd]
+                rc3, out3, err3 = run(base + ["."], cwd, env=extra_env)
+                runs += 1
+                for lv in ("a/cwd", "a/cwd/b", "a/cwd/b/c"):
+                    o3, _ = _observe_config(open(os.path.join(T, lv, "f.lua")).read())
+                    lexd = os.path.join(cwd, ".", os.path.relpath(os.path.join(T, lv), cwd)) if lv != "a/cwd" else cwd + "/."
+                    req3 = req.rsplit("dir=", 1)[0] + "dir=" + lex(os.path.normpath(lexd) if False else lexd)
+                    exp3 = "default" if o3 == "default" else ("user:%s" % o3 if user and o3 == str(user) else "ec:%s" % o3 if o3.isdigit() and int(o3) in ecs.values() else "toml:%s" % o3)
+                    Q.append(q(req3, exp3))
+    # .editorconfig sections are chosen by file name: several files of one directory in one invocation
+    ecfiles = {".editorconfig": "root = true\n[*.lua]\nindent_style = space\nindent_size = 4\n[*_spec.lua]\nindent_size = 2\n[init.lua]\nindent_size = 7\n",
+               "src/alpha.lua": PROBE, "src/alpha_spec.lua": PROBE, "src/init.lua": PROBE, "src/beta.lua": PROBE}
+    want = {"src/alpha.lua": "4", "src/alpha_spec.lua": "2", "src/init.lua": "7", "src/beta.lua": "4"}
+    import itertools
+    for order in list(itertools.permutations(sorted(want)))[:: (1 if tier == "thorough" else 4)]:
+        with Tree(ecfiles) as t:
+            rc, out, err = run(list(order), t.root)
+            runs += 1
+            for f, w_ in want.items():
+                o, _ = _observe_config(open(os.path.join(t.root, f)).read())
+                if o != w_:
+                    V.append(v("C15", "editorconfig-section-by-file-name", {"argv": list(order), "tree": ecfiles, "file": f, "expected": w_, "observed": o}))
+    S.append({"c15": {"cases": n, "runs": runs, "target_kinds": dist, "oracle_evaluations": runs}})
+    return Q, V, S
+
+
+# ----------------------------------------------------------------------------- C17
+
+def c17(tier, seed):
+    Q, V, S = [], [], []
+    rng = random.Random(seed * 32452843 + 17)
+    big = "".join("local   v%d =   { %d,%d }\n" % (i, i, i + 1) for i in range(200000 if tier == "thorough" else 60000))
+    inputs = {
+        "valid": "local   x   =   1\nprint( x )\n",
+        "formatted": "local x = 1\n",
+        "invalid": "local = = (\n",
+        "empty": "",
+        "blank-lines": "\n\n\n",
+        "spaces-only": "   \n",
+        "crlf-blank": "\r\n\r\n",
+        "tab-only": "\t",
+        "crlf": "local   x   =   1\r\nprint( x )\r\n",
+        "no-trailing-newline": "local   x   =   1",
+        "comment-only": "-- c",
+        "shebang": "#!/usr/bin/lua\nlocal   x=1\n",
+        "unicode": "local s = 'é'\n",
+        "big": big,
+    }
+    runs = 0
+    for name, text in inputs.items():
+        for check in (False, True):
+            for respect in (False, True):
+                for path_kind in ("none", "plain", "ignored"):
+                    for fmtopt in ([], ["--quote-style", "ForceSingle"], ["--indent-type", "Spaces", "--indent-width", "3"], ["--line-endings", "Windows"], ["--verify"]):
+                        if name == "big" and (check or fmtopt or respect):
+                            continue
+                        if rng.random() < 0.5 and not (name in ("valid", "invalid", "blank-lines")):
+                            continue
+                        files = {"other.lua": UNFORMATTED, ".styluaignore": "ignored.lua\n", "ignored.lua": UNFORMATTED}
+                        with Tree(files) as t:
+                            before = t.snapshot()
+                            args = (["--check"] if check else []) + (["--respect-ignores"] if respect else []) + fmtopt
+                            if path_kind == "plain":
+                                args += ["--stdin-filepath", "other.lua"]
+                            elif path_kind == "ignored":
+                                args += ["--stdin-filepath", "ignored.lua"]
+                            args.append("-")
+                            rc, out, err = run(args, t.root, stdin=text.encode(), timeout=300)
+                            after = t.snapshot()
+                            runs += 1
+                            cfgstr = "syntax=All"
+                            if "--quote-style" in fmtopt:
+                                cfgstr += " quote=ForceSingle"
+                            if "--indent-type" in fmtopt:
+                                cfgstr += " indent=Spaces/3"
+                            if "--line-endings" in fmtopt:
+                                cfgstr += " eol=Windows"
+                            lib = _lib_format(text, cfgstr)
+                            parses = not lib.startswith("<parse error>")
+                            skipped = respect and path_kind == "ignored"
+                            detail = {"argv": args, "stdin": text if len(text) < 300 else "<%d bytes>" % len(text), "exit": rc, "stdout": out.decode("utf-8", "replace")[:300], "stderr": err.decode("utf-8", "replace")[:300]}
+                            if {k_: v_[:3] for k_, v_ in before.items()} != {k_: v_[:3] for k_, v_ in after.items()}:
+                                V.append(v("C17", "stdin-mode-wrote-files", detail))
+                            same = parses and lib == text
+                            obs_kind = None
+                            if check:
+                                obs_kind = "nothing" if out == b"" else "diff"
+                            else:
+                                if out == b"" and not (parses and lib == "") and not (skipped and text == ""):
+                                    obs_kind = "nothing"
+                                elif out == text.encode() and (skipped or same):
+                                    obs_kind = "input"
+                                elif parses and out == lib.encode():
+                                    obs_kind = "formatted" if not same else "input"
+                                elif out == text.encode():
+                                    obs_kind = "input"
+                                else:
+                                    obs_kind = "other"
+                            if name != "big":
+                                Q.append(q("stdin %d %d %d %d %d" % (check, respect, path_kind == "ignored", parses, same), "%s %d" % (obs_kind, rc)))
+                            # ---- ring 3
+                            if not check:
+                                if skipped:
+                                    if out != text.encode() or rc != 0:
+                                        V.append(v("C17", "ignored-stdin-path-not-passed-through", detail))
+                                elif not parses:
+                                    if out != b"" or rc != 2:
+                                        V.append(v("C17", "parse-error:stdout-or-exit", detail))
+                                else:
+                                    if out != lib.encode():
+                                        V.append(v("C17", "stdout-differs-from-library-output", dict(detail, library=lib[:300])))
+                                    if rc != 0:
+                                        V.append(v("C17", "exit-status", detail))
+    S.append({"c17": {"inputs": len(inputs), "runs": runs, "big_input_bytes": len(big), "oracle_evaluations": runs}})
+    return Q, V, S
